@@ -785,6 +785,14 @@ func (r *zzvS5Run) step(tok zzvS5Tok) (zzvS5Obs, error) {
 			return zzvS5Obs{}, err
 		}
 	}
+	if r.cl == nil {
+		// WebSocket variant before the upgrade: the client goes away without ever connecting
+		if tok.T == "EOF" {
+			r.dead = true
+			return zzvS5Obs{Closed: true, Ex: r.srv.rec.drain()}, nil
+		}
+		return zzvS5Obs{}, fmt.Errorf("token %v before the connection exists", tok)
+	}
 	if tok.T == "EOF" {
 		r.dead = true
 		switch r.srv.variant {
@@ -1160,7 +1168,9 @@ func TestZZVSocks5AuthFuzz(t *testing.T) {
 				b = append(b, []byte{0, 2, 0, 2, 1, 0xff}[rng.Intn(6)])
 			}
 			if rng.Intn(3) > 0 {
-				name, pw := zzvEnc{users: users, rng: rng}.creds([]string{"wrongpw", "unknown", "emptypw"}[rng.Intn(3)])
+				// mostly credentials that match nobody; sometimes the right ones (then execution is legitimate,
+				// which shows that the recorders and the ground-truth parser work)
+				name, pw := zzvEnc{users: users, rng: rng}.creds([]string{"wrongpw", "unknown", "emptypw", "wrongpw", "valid"}[rng.Intn(5)])
 				b = append(b, zzvCredBytes(1, name, pw)...)
 			}
 			b = append(b, 5, byte(1+rng.Intn(4)), 0, 1, 198, 51, 100, 7, 0, 80)
